@@ -130,5 +130,7 @@ def run(check, ctx):
     c_ghash.ghash_tables(check, ctx)
     from . import c_aes
     c_aes.aes_tables(check, ctx)
+    from . import c_salsa
+    c_salsa.salsa_tables(check, ctx, groups=("stream",))
     check.undecided.append("the block primitives beyond the published vectors (AES/DES/CAST/Blowfish/ARC2/ARC4), Salsa20, GHASH/OCB "
                            "arithmetic in C; mode geometries outside the enumerated table")
